@@ -308,6 +308,23 @@ def apply_model(m: AclM, op: dict) -> Expect:  # noqa: C901
                     if pm is not None and pm.op == op["operator"]:
                         pm.operands = tuple(op["items"])
         return Expect(m)
+    if k in ("set_addr", "set_option"):
+        if n and m.type == "extended":
+            b = m.blocks[op["i"] % n]
+            if b.rules:
+                r = b.rules[op["j"] % len(b.rules)]
+                if r.kind == "ace" and k == "set_addr":
+                    cur = r.src if op["side"] == "src" else r.dst
+                    if not cur.group:
+                        new = Reader(m.platform, m.version, strict=True)._addr(
+                            op["line"].split(), 0)[0]
+                        if op["side"] == "src":
+                            r.src = new
+                        else:
+                            r.dst = new
+                elif r.kind == "ace" and (not op["flags"] or r.proto == 6):
+                    r.flags, r.logs = tuple(op["flags"]), tuple(op["logs"])
+        return Expect(m)
     if k in ("set_note", "scribble_ipnets", "foreign_parse"):
         return Expect(m)
     if k == "set_remark_text":
